@@ -22,7 +22,9 @@ RULE = ("random sample sets (SPIN/BINARY/INTEGER/DISCRETE/REAL; sample dtypes in
         "heap model, plus two oracles on the observations alone (relabel-only histories never change another object; inplace=False on a resolved receiver returns an "
         "object sharing no record and leaves everything else as it was); seq cases also read samples(n, sorted_by) / iter() and data(sorted_by, reverse, name, "
         "sample_dict_cast, index=True), concatenate sample sets with DIFFERENT data vectors with/without defaults= (list or generator), build with aggregate_samples=True, "
-        "pass the vartype as str / Vartype / set, and use range(n) labels; "
+        "pass the vartype as str / Vartype / set, and use range(n) labels; relabel mode gen_clash joins a swap / cycle with ordinary entries whose targets are the integers "
+        "utilities.resolve_label_conflict would generate next (2*len(mapping)...); every sample set an operation derived a new one from is re-read after every later step and must not have changed (shared Variables / record / info); "
+        "15% of the defer cases change the caller's mapping dict right after each deferred relabel; "
         "non-trivial = an operation returned a non-empty sample set; distinct by case JSON")
 TRUSTED = ["translators/dtype_narrowing.py (fail-closed) -> Gen/Gen_Narrow.v: the candidate list of _sample_array's dtype narrowing",
            "translators/sampleset_hooks.py (fail-closed) -> Gen/Gen_Hooks.v: the statement shapes of SampleSet.from_future / resolve / copy / relabel_variables and the head of change_vartype are matched exactly; the inplace= constants of the three deferred hooks are extracted and proved equal to the variants Model/Alias.v implements (the model itself is hand-written, not parameterised by them)",
@@ -32,5 +34,5 @@ TRUSTED = ["translators/dtype_narrowing.py (fail-closed) -> Gen/Gen_Narrow.v: th
 ASSUMPTIONS = ["IEEE-754 arithmetic is exact on the small dyadic energies, offsets and tolerances generated",
                "np.argsort may return any order of tied keys: the order it returns for the same key vector is observed, checked to be an admissible argsort, and the implementation's slice / first must equal the code shape record[order[selector]] / record[order[0]] exactly (plus the relational check)"]
 PARTIAL = ["the heap theorems (C14_alias_*) cover histories of relabel_variables calls; for histories containing change_vartype on future-backed sets the heap model is only compared with the implementation (the code lets an in-place conversion write into the future's own result record, so no frame property holds there - reported)",
-           "not reached: from_samples_bqm / from_samples_cqm (C08), serialization (C11), to_pandas_dataframe, wait_id; mappings mutated by the caller between a deferred call and resolution",
+           "not reached: from_samples_bqm / from_samples_cqm (C08), serialization (C11), to_pandas_dataframe, wait_id (C19 reaches the cached problem id)",
            "C14_deferred_inplace_change_vartype_receiver_refuted is the open finding C14-deferred-inplace stated on the faithful model: change_vartype(inplace=True) on a pending sample set returns a new wrapper and the receiver, resolved on its own, is unconverted; every other receiver/returned-handle law of the deferred state machine is proved"]
